@@ -230,6 +230,24 @@ Theorem C17_handles_share_series : forall s h1 h2 k x d1 d2,
 Proof. exact handles_share_series. Qed.
 Print Assumptions C17_handles_share_series.
 
+(* ---- several reporters on ONE registry (the default registerer; a reporter
+   built again on the same registry): no nil dereference either, for every
+   interleaving of their operations ---- *)
+Theorem C17_conflict_never_nil_multi : forall c, fixed c = true ->
+  forall ops t, forallb (fun o => negb (is_nil o)) (snd (xrun c t ops)) = true.
+Proof. exact never_nil_multi. Qed.
+Print Assumptions C17_conflict_never_nil_multi.
+
+(* a name the registry already knows, first used by a reporter that does not
+   have it in its own cache, is REJECTED (AlreadyRegistered or inconsistent) in
+   every state: the other reporter's vector - with whatever bounds - is never
+   adopted; by C17_callback_gets_error the callback gets the error *)
+Theorem C17_known_name_rejected : forall c s u n ks i, ttype_ok c ->
+  own_cache_miss c s u (n, ks) -> find_name n (vecs s) = Some i ->
+  exists e, alloc_vec c s u n ks = (s, VErr e) /\ (eclass e = 1 \/ eclass e = 2).
+Proof. exact known_name_rejected. Qed.
+Print Assumptions C17_known_name_rejected.
+
 (* ---------------- non-vacuity ---------------- *)
 (* a history with two counters of one family, a gauge and a value histogram
    {1, 2}; records, an intermediate pass, more records *)
@@ -302,4 +320,20 @@ Example C17_example_second_handle :
   cblog (fst r) = [] /\
   gathered (fst r) [103] [[118]] = Some (Vec [103] ([103] ++ sfx_gauge) [[107]] PGauge [], SGauge 0) /\
   gathered (fst r) [99] [] = Some (Vec [99] ([99] ++ sfx_counter) [] PCounter [], SCounter 13).
+Proof. vm_compute. repeat split; reflexivity. Qed.
+
+(* two reporters on one registry: the second one's histogram of the same name
+   and tag keys (other bounds) is rejected as AlreadyRegistered (class 1); its
+   samples do not reach the first one's histogram *)
+Example C17_example_two_reporters :
+  let r := xrun ex_cfg (xinit [])
+             [XOp (RAlloc (UHist [F1; F2]) [104] [([107], [118])]); XOp (RDeliver 0 (DObserve F1 2));
+              XSwitch 1;
+              XOp (RAlloc (UHist [F15]) [104] [([107], [118])]); XOp (RDeliver 1 (DObserve F15 5));
+              XSwitch 0;
+              XOp (RAlloc (UHist [F1; F2]) [104] [([107], [118])]); XOp (RDeliver 2 (DObserve F2 1))] in
+  snd r = [OMetric (MReal (0%nat, [[118]])); ODone; OMetric MNoop; ODone; OMetric (MReal (0%nat, [[118]])); ODone] /\
+  cblog (xs (fst r)) = [1] /\
+  gathered (xs (fst r)) [104] [[118]] =
+    Some (Vec [104] ([104] ++ sfx_histogram) [[107]] PHistogram [F1; F2], SHist [2; 1] 3).
 Proof. vm_compute. repeat split; reflexivity. Qed.
